@@ -67,6 +67,33 @@ func c10Scenarios(tier string) []*Scenario {
 			scs = append(scs, c10Scenario(2, pol, 0, ans, "none", true))
 		}
 	}
+	// ready_log_line together with a readiness probe: the loader refuses the combination; if it ever loads, Ready
+	// is still only reported after a probe has succeeded (the probe here never does, the line is printed at once)
+	for _, strict := range []bool{false, true} {
+		var global []string
+		if strict {
+			global = append(global, "is_strict: true")
+		}
+		pc := PC{Name: "a", Lines: []string{"ready_log_line: \"READY\"", "readiness_probe:", "  exec:", fmt.Sprintf("    command: %q", probeCmd("a")),
+			"  period_seconds: 1", "  initial_delay_seconds: 2", "  failure_threshold: 30"}}
+		sc := &Scenario{
+			ID:         fmt.Sprintf("c10-ready-line-and-probe-strict%v", strict),
+			YAML:       projectYAML(global, pc),
+			Procs:      map[string]*ProcScript{"a": {Launches: [][]Action{{Out("READY\n")}}}},
+			Aux:        map[string][]string{probeCmd("a"): {"fail"}},
+			K:          1,
+			TickBudget: 2,
+			Horizon:    6 * time.Second,
+			Snap:       true,
+		}
+		sc.Check = func(w *World) []Violation {
+			if w.Outcome == "loaderror" {
+				return nil
+			}
+			return c10Check(w, 30, "no", false)
+		}
+		scs = append(scs, sc)
+	}
 	// daemon with both probes: liveness declares it dead and it is relaunched; readiness keeps giving the same
 	// answer before and after. The reported health follows the most recent readiness answer since the launch.
 	for _, ready := range []string{"ok", "fail"} {
